@@ -54,10 +54,11 @@ class Raiser(object):
 
 
 class Run(object):
-    def __init__(self, tick, syntax, lmode="plain"):
+    def __init__(self, tick, syntax, lmode="plain", feed="direct", script=()):
         self.tick = tick
         self.syntax = syntax
         self.lmode = lmode
+        self.feed = feed
         self.clock = task.Clock()
         clock = self.clock
 
@@ -71,7 +72,25 @@ class Run(object):
                 return BASE + datetime.timedelta(seconds=clock.seconds())
         # virtualise the wall clock inside txtorcon.addrmap only (harness process only)
         addrmap_mod.datetime = types.SimpleNamespace(datetime=FakeDT, timedelta=datetime.timedelta)
-        self.am = addrmap_mod.AddrMap()
+        self.exc = []
+        self.nstep = 0
+        self.state = None
+        if feed == "state":
+            # the map of a TorState on a control connection: what Tor already maps when the controller connects arrives
+            # as the answer to GETINFO address-mappings/all, everything later as ADDRMAP events - the first of them
+            # possibly while the controller is still bootstrapping (right after its subscription is acknowledged)
+            from twisted.test import proto_helpers
+            from txtorcon import TorControlProtocol, TorState
+            import simtor
+            self.proto = TorControlProtocol()
+            self.tr = proto_helpers.StringTransport()
+            self.sim = simtor.SimTor(self.proto, self.tr)
+            self.sim.info.update({"ns/all": [], "circuit-status": "", "stream-status": "", "address-mappings/all": "",
+                                  "entry-guards": "", "process/pid": "1"})
+            self.state = TorState(self.proto)
+            self.am = self.state.addrmap
+        else:
+            self.am = addrmap_mod.AddrMap()
         self.am.scheduler = IReactorTime(self.clock)
         self.l = Listener()
         self.am.add_listener(self.l)
@@ -92,8 +111,51 @@ class Run(object):
             self.l.addrmap_expired = probing
         elif lmode == "raise":
             self.am.add_listener(Raiser())
-        self.exc = []
-        self.nstep = 0
+        self.prefix = 0
+        if feed == "state":
+            pre = []
+            for e in script:
+                if e["a"] != "Event":
+                    break
+                pre.append(e)
+            k = (len(pre) + 1) // 2
+            for i, e in enumerate(pre[:k]):
+                if e["addr"] == "<error>":
+                    k = i
+                    break
+            keep = self.syntax
+            self.syntax = "local"
+            snap = []
+            for e in pre[:k]:
+                self.nstep += 1
+                ln = self.line(e)
+                snap.append(ln.replace(' CACHED="NO"', ""))
+            self.syntax = keep
+            early = []
+            for e in pre[k:]:
+                self.nstep += 1
+                early.append("650 ADDRMAP %s\r\n" % self.line(e))
+            self.prefix = len(pre)
+            self.sim.info["address-mappings/all"] = snap[0] if len(snap) == 1 else ("" if not snap else snap)
+            sent = [False]
+
+            def setevents(line):
+                if "ADDRMAP" in line and not sent[0]:
+                    sent[0] = True
+                    return b"250 OK\r\n" + "".join(early).encode("latin-1")
+                return b"250 OK\r\n"
+            self.sim.handlers["SETEVENTS"] = setevents
+            try:
+                self.proto.makeConnection(self.tr)
+                self.sim.pump()
+                assert self.state.post_bootstrap.called, "TorState did not bootstrap"
+                r = self.state.post_bootstrap.result
+                assert not isinstance(r, Exception) and not hasattr(r, "getTraceback"), r
+            except InjectedListenerError:
+                pass
+            except Exception as ex:
+                self.exc.append(repr(ex))
+            self.nstep = 0
 
     def line(self, e):
         name = NAMES[e["n"]]
@@ -117,9 +179,18 @@ class Run(object):
 
     def step(self, e):
         self.nstep += 1
+        if self.feed == "state" and self.nstep <= self.prefix:
+            # delivered during the bootstrap already: the map is observable once the whole prefix is in
+            o = self.obs()
+            o["skip"] = "log" if self.nstep == self.prefix else "all"
+            if self.exc:
+                o["skip"] = "none"
+            return o
         self.l.log = []
         try:
-            if e["a"] == "Event":
+            if e["a"] == "Event" and self.feed == "state":
+                self.sim.event("650 ADDRMAP %s\r\n" % self.line(e))
+            elif e["a"] == "Event":
                 self.am.update(self.line(e))        # no reactor turn: zero-delay timers run at the next Advance (dt may be 0)
             else:
                 self.clock.advance(e["dt"] * self.tick)
@@ -155,14 +226,23 @@ class Run(object):
             except KeyError:
                 addrs[k] = "none"
         log = [[kind, inv_names.get(n, n)] for kind, n in self.l.log]
-        return dict(names=names, addrs=addrs, log=log)
+        return dict(names=names, addrs=addrs, log=log, skip="none")
 
 
-def replay(script, tick, syntax, lmode="plain"):
-    run = Run(tick, syntax, lmode)
+def replay(script, tick, syntax, lmode="plain", feed="direct"):
+    run = Run(tick, syntax, lmode, feed, script)
     steps = []
     for e in script:
         s = dict(e)
         s["obs"] = run.step(e)
         steps.append(s)
-    return dict(steps=steps, tick=tick, syntax=syntax, lmode=lmode, errors=run.exc[:2])
+    return dict(steps=steps, tick=tick, syntax=syntax, lmode=lmode, feed=feed, errors=run.exc[:2])
+
+
+class _Sink(object):
+    def __call__(self, ev):
+        pass
+
+
+from twisted.python import log as _log                    # noqa: E402
+_log.startLoggingWithObserver(_Sink(), setStdout=False)
